@@ -222,6 +222,12 @@ func (e *Environment) MakeRegister(originalName string, v int64) Register {
 	return r
 }
 
+// ReleaseAllRegisters frees the registers of this environment, to recover from a panic that unwound
+// the loops owning them.
+func (e *Environment) ReleaseAllRegisters() {
+	e.numReg = 0
+}
+
 func (e *Environment) ReleaseRegister(register Register) {
 	if register.Idx != e.numReg-1 {
 		panic(fmt.Sprintf("Releasing non last register %s %d != %d", register.Literal(), register.Idx, e.numReg-1))
